@@ -1,6 +1,8 @@
 //! hx: conformance harness between the TLA+ specification in /verif/spec and the code in /repo.
 mod alloc;
+mod cipher;
 mod conn;
+mod hash;
 mod mock;
 mod refcodec;
 mod rl;
@@ -13,7 +15,9 @@ fn main() {
     let args: Vec<String> = std::env::args().collect();
     let sub = args.get(1).map(|s| s.as_str()).unwrap_or("");
     match sub {
+        "cipher" => cipher::main(&args[2..]),
         "conn" => conn::main(&args[2..]),
+        "hash" => hash::main(&args[2..]),
         "rl" => rl::main(&args[2..]),
         "wire" => wire::main(&args[2..]),
         _ => {
